@@ -1211,8 +1211,10 @@ def generate_j_part_cb_from_jump_operators(
     """
     dim = jump_operators[0].shape[0]
     identity = np.eye(dim)
+    # -1/2 {c^dagger c, rho}  <->  -1/2 (c^dagger c (x) I + I (x) conj(c^dagger c))
     terms = [
-        mutil.kron(opertor, identity) + mutil.kron(identity, opertor.conj())
+        mutil.kron(opertor.conj().T @ opertor, identity)
+        + mutil.kron(identity, (opertor.conj().T @ opertor).conj())
         for opertor in jump_operators
     ]
     j_part_cb = -1 / 2 * reduce(add, terms)
